@@ -885,6 +885,31 @@ func CheckC05(rr *RunResult, res *vprop.Result) {
 				}
 			}
 		}
+		// "An attempt that overruns the action's timeout is recorded as a (retryable) timeout failure": it is the overrun
+		// that is recorded, not the plugin's return — a plugin that never comes back must not keep the failure out of the
+		// record for ever. Bounded witness: a stubborn invocation keeps executing for 2 s of observed time after its
+		// context was cancelled; by the time it returns, a storage write of the action that carries this attempt must
+		// have completed. (Judged only when the context really was cancelled; the other case has a rule of its own.)
+		if !r.IsCont() {
+			for k, inv := range invs {
+				if !a.StepOf(inv.N).Stubborn() || inv.Exit < 0 || !inv.ExitCtx {
+					continue
+				}
+				res.Label("stubborn-overrun-judged")
+				recorded := false
+				for i := 0; i < inv.Exit && i < len(rr.Events); i++ {
+					e := rr.Events[i]
+					if e.Kind == EvWriteEnd && e.W != nil && !e.W.Create && e.W.Err == nil && e.W.Tag == r.Tag() && len(e.W.Attempts) >= k+1 {
+						recorded = true
+						break
+					}
+				}
+				if !recorded {
+					res.Fail("C05/overrun-not-recorded-while-plugin-runs", "%s#%d overran its timeout, had its context cancelled and kept executing for %v: when it returned (log %d) no storage write of the action carried attempt %d yet", r.Tag(), inv.N, stubbornHold, inv.Exit, k+1)
+					return
+				}
+			}
+		}
 		// "with the plugin's context cancelled": an overrunning invocation that is still blocked when the run is over was
 		// never cancelled (the plugin returns within milliseconds of its context being done)
 		for _, inv := range invs {
